@@ -149,6 +149,19 @@ AdjustedVert(cell, v) ==
 FacesCell(cell) == IF IsPentC(cell) /\ ~ClassIII(cell.r) THEN [r |-> cell.r + 1, b |-> cell.b, d |-> Append(cell.d, 0)] ELSE cell
 Faces(cell) == LET x == FacesCell(cell) IN {AdjustedVert(x, v).f : v \in 1..NumVerts(x)}
 
+\* ---- how many points cellToBoundary returns (faceijk.c:672 _faceIjkToCellBoundary) --------------------------
+\* A hexagon of a Class III resolution gets an extra point on every edge whose two corners end up on different icosahedron
+\* faces, unless one of the two corners lies exactly on the icosahedron edge (then both halves of the cell edge are on single
+\* faces).  The code walks the corners 0..5 and then 0 again, comparing each with its predecessor.
+Cyc6(v) == ((v - 1) % 6) + 1
+DistortionBefore(cell, v) ==        \* an extra point between corner v-1 and corner v (corners 1..6, cyclic)
+  LET a == AdjustedVert(cell, v)   b == AdjustedVert(cell, Cyc6(v + 5)) IN
+  a.f # b.f /\ b.ov # 1 /\ a.ov # 1
+BoundaryPoints(cell) ==
+  IF IsPentC(cell) THEN (IF ClassIII(cell.r) THEN 10 ELSE 5)
+  ELSE IF ~ClassIII(cell.r) THEN 6
+  ELSE 6 + Cardinality({v \in 1..6 : DistortionBefore(cell, v)})
+
 \* ---- canonical integer vertex identity --------------------------------------------------------------
 \* An adjusted substrate vertex lying exactly on an icosahedron edge (sum = 3*maxDim) has two face
 \* representations; the second is obtained by pushing it over that edge with the same transform.
